@@ -8,7 +8,10 @@ kind 'poly'  ContinuousGF on exact (dyadic) polynomials: the implementation's fl
 kind 'er' / 'plc' / 'geo'   the analytic families against independently computed Poisson / power-law-
              with-cutoff / geometric probabilities (mpmath at 50 digits, direct summation): the numerical
              clause of the property, which is outside Coq.  Tolerance for the property: relative 1e-6 or
-             absolute 1e-6 on the scale of the contour mean (DESIGN section 5, C17)."""
+             absolute 1e-6 on the scale of the contour mean (DESIGN section 5, C17); inside that absolute tolerance a
+             coefficient that is neither the Taylor value nor the aliased sum of C17_contour_exact to 1e-9 of the scale
+             is reported as a wrong coefficient as well (with its input), not only as a broken tie.
+Series cases carry, per query, the steps (scale / dx k) from the series object to the object asked: see PLANS."""
 import itertools
 import math
 from fractions import Fraction
@@ -154,7 +157,45 @@ def poly_case(rnd, alias=False):
         qs.append([rnd.choice([100, 130]), rnd.randrange(0, 5)])      # i + order >= m: the step follows i only
         qs.append([rnd.choice([0, 1]), rnd.choice([98, 99, 120, 197, 198, 250])])     # 100, 200, 300 points
     vs = [[rnd.choice([0, 1, 2, 3]), rnd.choice([0.0, 1.0, 0.5, -0.25])] for _ in range(2)]
-    return {'kind': 'poly', 'coeffs': cs, 'queries': qs, 'values': vs, 'scale': rnd.choice([None, None, ['*', 0.5], ['/', 4.0], ['*', 3.0]])}
+    return with_plan(rnd, {'kind': 'poly', 'coeffs': cs, 'queries': qs, 'values': vs, 'scale': rnd.choice([None, None, ['*', 0.5], ['/', 4.0], ['*', 3.0]])})
+
+
+# ------------------------------------------------------------------ plans: the ORDER in which scaling and differentiation are applied
+# Each query [order, i] / value [order, x] of a series case carries the steps that lead from the series object to the object
+# asked: ['s'] = apply case['scale'] (gf * c or gf / c), ['dx', k] = .dx(k).  The dx steps of a query add up to its order, so the
+# reference (which is linear in the series) depends on the total order and the factor only.
+#   'sd'   scale, dx(order)              (the derivative of an order-0 object)
+#   'dd'   scale, dx(k1), dx(k2)         (a derivative of an object that already represents a derivative: _order > 0)
+#   'ds'   dx(order), scale              (scaling an object with _order > 0)
+#   'dsd'  dx(k1), scale, dx(k2)
+PLANS = ('sd', 'sd', 'dd', 'dd', 'ds', 'dsd')
+
+
+def steps_for(plan, order, has_scale, cut):
+    s = [['s']] if has_scale else []
+    if plan == 'sd':
+        return s + ([['dx', order]] if order else [])
+    if plan == 'ds':
+        return ([['dx', order]] if order else []) + s
+    if order >= 2:
+        k1 = min(cut, order - 1)
+        k2 = order - k1
+    else:               # order 0 or 1: a dx(0) step (the identity) before or after
+        k1, k2 = (order, 0) if cut % 2 else (0, order)
+    if plan == 'dd':
+        return s + [['dx', k1], ['dx', k2]]
+    return [['dx', k1]] + s + [['dx', k2]]
+
+
+def with_plan(rnd, case, plan=None, cut=None):
+    """fix the order of operations of every query and value of a series case (same order -> same steps -> same object)"""
+    plan = plan or rnd.choice(PLANS)
+    cut = cut or rnd.choice([1, 1, 2, 3])
+    hs = case['scale'] is not None
+    case['plan'] = plan
+    case['steps'] = [steps_for(plan, o, hs, cut) for o, _ in case['queries']]
+    case['vsteps'] = [steps_for(plan, o, hs, cut) for o, _ in case['values']]
+    return case
 
 
 def analytic_queries(rnd, nq, maxn=60):
@@ -180,19 +221,22 @@ def er_case(rnd):
     else:
         c['phi'] = None
         c['kmean'] = kmean
-    return c
+    return with_plan(rnd, c)
 
 
 def plc_case(rnd, fast):
     a = rnd.choice([2.0, 3.0]) if fast else rnd.choice([rnd.uniform(2.0, 3.5), 2.5, 3.5])
     c = rnd.choice([rnd.uniform(5.0, 60.0), 5.0, 60.0, float(rnd.randrange(5, 61))])
-    return {'kind': 'plc', 'exponent': a, 'cutoff': c, 'queries': analytic_queries(rnd, 3 if fast else 1), 'values': [[0, 1.0]],
-            'scale': rnd.choice([None, None, ['*', 0.5]])}
+    # values: gf(1) = 1 and the series itself inside the unit disc (order 0 only: no contour involved)
+    return with_plan(rnd, {'kind': 'plc', 'exponent': a, 'cutoff': c, 'queries': analytic_queries(rnd, 3 if fast else 1),
+                           'values': [[0, 1.0], [0, rnd.choice([0.0, 0.5, 0.25, -0.5, 0.75])]],
+                           'scale': rnd.choice([None, None, ['*', 0.5], ['/', 4.0], ['*', 3.0]])})
 
 
 def geo_case(rnd):
-    return {'kind': 'geo', 'q': rnd.choice([0.5, 0.25, 0.125, 0.375]), 'queries': analytic_queries(rnd, 6),
-            'values': [[rnd.choice([0, 1, 2]), rnd.choice([0.0, 0.5, -0.5, 0.25])] for _ in range(2)], 'scale': None}
+    return with_plan(rnd, {'kind': 'geo', 'q': rnd.choice([0.5, 0.25, 0.125, 0.375]), 'queries': analytic_queries(rnd, 6),
+                           'values': [[rnd.choice([0, 1, 2]), rnd.choice([0.0, 0.5, -0.5, 0.25])] for _ in range(2)],
+                           'scale': rnd.choice([None, None, ['*', 0.5], ['/', 4.0]])})
 
 
 # ------------------------------------------------------------------ running the implementation
@@ -201,6 +245,18 @@ def scaled(gf, sc):
     if sc is None:
         return gf
     return gf * sc[1] if sc[0] == '*' else gf / sc[1]
+
+
+def apply_steps(base, steps, sc, memo):
+    """the object reached from the series object by the steps; equal prefixes of steps are ONE object (what binding the
+    intermediate result to a name does), so a coefficient and a value of the same derivative are asked of the same object"""
+    g, key = base, ()
+    for st in steps:
+        key += (tuple(st),)
+        if key not in memo:
+            memo[key] = scaled(g, sc) if st[0] == 's' else g.dx(st[1])
+        g = memo[key]
+    return g
 
 
 def scale_factor(sc):
@@ -247,8 +303,10 @@ class H(Harness):
             'gf[i] for i in {0, 1, maxdeg, maxdeg+1, 3 random}, gf(1), gf.dx()(1); ContinuousGF on dyadic polynomials of degree <= 80 '
             '(and sparse ones of degree 101-159 with visible aliasing, incl. i + order >= number of points) for 7 (order, i) pairs '
             'with i + order <= 60 and 2 derivative values; gf_er with mean degree in (0, 20] given directly or as N*phi, gf_plc with '
-            'exponent in [2, 3.5] and cutoff in [5, 60], a geometric series through gf_from_series; each optionally scaled by * or /; '
-            'i + order <= 60, orders 0-10; a case is non-trivial when it is a network with at least one edge or an analytic case; '
+            'exponent in [2, 3.5] and cutoff in [5, 60] (also gf(x) at one x in [-0.5, 0.75]), a geometric series through gf_from_series; '
+            'each optionally scaled by * or /, with scaling and differentiation applied in one of four orders per case (scale, dx k | '
+            'scale, dx k1, dx k2 | dx k, scale | dx k1, scale, dx k2; dx(0) steps included), equal prefixes being one object, plus a '
+            'fixed block of every order of operations on each family; i + order <= 60, orders 0-10; a case is non-trivial when it is a network with at least one edge or an analytic case; '
             'distinct by the whole case')
     def __init__(self):
         self.maxdev = {}        # family -> largest deviation from the Taylor value seen in this run
@@ -276,7 +334,7 @@ class H(Harness):
 
     def gen_cases(self, tier, rnd, n):
         out = []
-        n_plc = 6 if tier == 'quick' else 110
+        n_plc = 10 if tier == 'quick' else 110
         n_er = n // 4
         n_poly = n // 5
         n_geo = n // 16
@@ -311,6 +369,21 @@ class H(Harness):
         out.append({'kind': 'er', 'N': 1000, 'phi': None, 'kmean': 20.0, 'queries': [[0, 60], [0, 0], [10, 50], [1, 59], [0, 20]], 'values': [[0, 1.0], [1, 1.0], [2, 1.0]], 'scale': None})
         out.append({'kind': 'plc', 'exponent': 2.0, 'cutoff': 5.0, 'queries': [[0, 1], [0, 60], [2, 3]], 'values': [[0, 1.0]], 'scale': None})
         out.append({'kind': 'plc', 'exponent': 2.0, 'cutoff': 60.0, 'queries': [[0, 1], [0, 60], [2, 3]], 'values': [[0, 1.0]], 'scale': None})
+        # every order of scaling and differentiation (PLANS) on each family: derivatives of derivative objects, scaled derivative
+        # objects, dx(0) on a derivative object, low orders (where the property's relative tolerance bites) and high ones
+        qs = [[2, 3], [2, 0], [1, 4], [3, 5], [0, 2], [4, 1], [10, 50], [5, 20]]
+        vs = [[2, 1.0], [1, 1.0], [3, 1.0]]
+        for plan in ('dd', 'ds', 'dsd', 'sd'):
+            for cut, sc in ((1, ['*', 2.0]), (2, ['/', 4.0]), (3, None)):
+                if sc is None and plan in ('ds', 'sd'):
+                    continue        # without a scaling these are the plain derivative
+                out.append(with_plan(None, {'kind': 'er', 'N': 1000, 'phi': None, 'kmean': 5.0, 'queries': qs, 'values': vs, 'scale': sc}, plan, cut))
+                out.append(with_plan(None, {'kind': 'geo', 'q': 0.5, 'queries': qs, 'values': [[2, 0.0], [1, 0.25], [3, -0.5]], 'scale': sc}, plan, cut))
+                out.append(with_plan(None, {'kind': 'poly', 'coeffs': [1.0, -2.0, 0.5, 3.0, 0.0, -0.25, 4.0, 1.0, -8.0, 2.0, 0.125, 1.0, -1.0],
+                                            'queries': [[2, 3], [2, 0], [1, 4], [3, 5], [0, 2], [4, 1], [7, 5], [6, 6]],
+                                            'values': [[2, 1.0], [1, 0.5], [3, -0.25]], 'scale': sc}, plan, cut))
+            out.append(with_plan(None, {'kind': 'plc', 'exponent': 2.0, 'cutoff': 10.0, 'queries': [[2, 3], [1, 1], [3, 2]], 'values': [[0, 1.0], [0, 0.5]],
+                                        'scale': ['*', 2.0]}, plan, 1))
         return out
 
     # ---------------------------------------------------------------- execute
@@ -334,15 +407,21 @@ class H(Harness):
             except self.OBSERVABLE as e:
                 return {'valueerror': None, 'raised': type(e).__name__ + ': ' + str(e), 'edges': [list(e) for e in g.edges()], 'nodes': list(g.nodes())}
         try:
-            gf = scaled(series_of(case), case['scale'])
+            base = series_of(case)
+            memo = {}
+            # cases without explicit steps (corpus files written before the plans): scale first, then dx(order)
+            hs = case['scale'] is not None
+            steps = case.get('steps') or [steps_for('sd', o, hs, 1) for o, _ in case['queries']]
+            vsteps = case.get('vsteps') or [steps_for('sd', o, hs, 1) for o, _ in case['values']]
+            for (order, _), st in zip(case['queries'] + case['values'], steps + vsteps):
+                if sum(t[1] for t in st if t[0] == 'dx') != order or (hs and sum(1 for t in st if t[0] == 's') != 1):
+                    raise RuntimeError('malformed case: steps %r do not make order %d / one scaling' % (st, order))
             coeffs = []
-            for order, i in case['queries']:
-                obj = gf.dx(order) if order else gf
-                coeffs.append(float(obj[i]))
+            for (order, i), st in zip(case['queries'], steps):
+                coeffs.append(float(apply_steps(base, st, case['scale'], memo)[i]))
             values = []
-            for order, x in case['values']:
-                obj = gf.dx(order) if order else gf
-                values.append(float(obj(x)))
+            for (order, x), st in zip(case['values'], vsteps):
+                values.append(float(apply_steps(base, st, case['scale'], memo)(x)))
         except self.OBSERVABLE + (ValueError,) as e:
             return {'raised': type(e).__name__ + ': ' + str(e), 'coeffs': [], 'values': []}
         return {'raised': None, 'coeffs': coeffs, 'values': values}
@@ -397,7 +476,7 @@ class H(Harness):
             S = MP.mpf(S.numerator) / S.denominator
         else:
             S = MP.mpf(1)                     # |f| <= f(1) = 1 on the unit circle for a probability series
-        for (order, i), got in zip(case['queries'], obs['coeffs']):
+        for qn, ((order, i), got) in enumerate(zip(case['queries'], obs['coeffs'])):
             n = i + order
             m = contour_points(i)
             factor = MP.mpf(fact(n)) / fact(i)
@@ -411,17 +490,24 @@ class H(Harness):
                                '%s order=%d i=%d' % ({k: case[k] for k in ('kmean', 'exponent', 'cutoff', 'q') if k in case}, order, i))
             ok_t = err_t <= REL * abs(taylor) or err_t <= ABS * scale
             ok_c = abs(got - closed) <= TIE * scale
-            what = '%s%s.dx(%d)[%d] = %r, Taylor coefficient %s, sum over the residue class mod %d %s' % (
-                kind, '' if case['scale'] is None else case['scale'][0] + repr(case['scale'][1]), order, i, got, MP.nstr(taylor, 12), m, MP.nstr(closed, 12))
+            what = '%s%s.dx(%d)[%d]%s = %r, Taylor coefficient %s, sum over the residue class mod %d %s' % (
+                kind, '' if case['scale'] is None else case['scale'][0] + repr(case['scale'][1]), order, i,
+                ' by steps %r' % (case['steps'][qn],) if case.get('steps') else '', got, MP.nstr(taylor, 12), m, MP.nstr(closed, 12))
             if in_range and not ok_t:
                 v.append({'signature': ('contour-aliasing:' if ok_c else 'analytic-coefficient:') + kind, 'detail': what})
+            elif in_range and not ok_c and err_t > TIE * scale:
+                # inside the property's absolute tolerance 1e-6 * n!/i! (very wide at high orders) but neither the Taylor
+                # coefficient nor the aliased sum of C17_contour_exact to 1e-9 of that scale: double-precision evaluation of
+                # the contour mean is accurate to ~1e-13 of the scale, so this is a wrong coefficient, with a concrete input
+                v.append({'signature': 'analytic-coefficient:' + kind, 'detail': what + ' (neither, to %g of the scale %s)' % (TIE, MP.nstr(scale, 6))})
             elif not ok_c:
                 v.append({'signature': 'tie-contour-closed-form:' + kind, 'detail': what, 'kind': 'harness'})
-        for (order, x), got in zip(case['values'], obs['values']):
+        for qn, ((order, x), got) in enumerate(zip(case['values'], obs['values'])):
             want, closed, scale = self._value_ref(case, order, x)
             want, closed, scale = scm * want, scm * closed, abs(scm) * scale
             err = abs(got - want)
-            what = '%s.dx(%d)(%r) = %r, derivative value %s, closed form %s' % (kind, order, x, got, MP.nstr(want, 12), MP.nstr(closed, 12))
+            what = '%s.dx(%d)(%r)%s = %r, derivative value %s, closed form %s' % (
+                kind, order, x, ' by steps %r' % (case['vsteps'][qn],) if case.get('vsteps') else '', got, MP.nstr(want, 12), MP.nstr(closed, 12))
             in_range = kind != 'poly' or len(case['coeffs']) <= 81
             if in_range and not (err <= REL * abs(want) or err <= 1e-12 * scale):
                 v.append({'signature': ('contour-aliasing-value:' if abs(got - closed) <= TIE * scale else 'analytic-value:') + kind, 'detail': what})
@@ -448,9 +534,18 @@ class H(Harness):
             q = MP.mpf(Fraction(case['q']).numerator) / Fraction(case['q']).denominator
             bj = lambda j: (1 - q) * q ** j / (1 - q * X) ** (j + 1)
             S = (1 - q) / (1 - q * (abs(X) + 1))
-        else:       # plc: only gf(1) = 1 is asked (the series is not analytic beyond radius e^(1/cutoff))
-            assert order == 0 and x == 1.0
-            return MP.mpf(1), MP.mpf(1), MP.mpf(1)
+        else:       # plc: only order 0 at |x| <= 1 is asked (the series is not analytic beyond radius e^(1/cutoff))
+            assert order == 0 and abs(x) <= 1.0
+            if x == 1.0:
+                return MP.mpf(1), MP.mpf(1), MP.mpf(1)
+            val, j = MP.mpf(0), 1           # direct summation of p_j x^j, p_j <= e^(-j/60)
+            while j < 4000:
+                t = plc(case['exponent'], case['cutoff'], j) * X ** j
+                val += t
+                if abs(t) < MP.mpf(10) ** -45:
+                    break
+                j += 1
+            return val, val, MP.mpf(1)
         f = MP.mpf(fact(order))
         if order == 0:
             return bj(0), bj(0), S
